@@ -140,7 +140,9 @@ def real_main(argv, isdir=(), isfile=(), walk=(), printed=True):
             configs.append(self)
 
     def snap(cfg):
-        return {k: (list(v) if isinstance(v, list) else v) for k, v in vars(cfg).items()}
+        # every public data member the object answers for, wherever it is stored (instance or class)
+        names = [k for k in dir(cfg) if not k.startswith('_') and not callable(getattr(cfg, k))]
+        return {k: (list(getattr(cfg, k)) if isinstance(getattr(cfg, k), list) else getattr(cfg, k)) for k in names}
 
     def recorder(name, ret=None):
         def f(*a, **kw):
